@@ -94,6 +94,10 @@ func trExpr(c *Ctx, env map[string]string, e ast.Expr) (string, bool) {
 			return "(" + a + " + " + b + ")", true
 		case token.SUB:
 			return "(" + a + " - " + b + ")", true
+		case token.MUL:
+			return "(" + a + " * " + b + ")", true
+		case token.QUO:
+			return "(" + a + " / " + b + ")", true
 		case token.LSS:
 			return "decide (" + a + " < " + b + ")", true
 		case token.LEQ:
